@@ -27,7 +27,14 @@ func (r *RNG) Intn(n int) int {
 	}
 	return int(r.U64() % uint64(n))
 }
-func (r *RNG) Bool() bool        { return r.U64()&1 == 1 }
+func (r *RNG) Bool() bool { return r.U64()&1 == 1 }
+
+// Shuffle: Fisher-Yates from the one PRNG state
+func (r *RNG) Shuffle(n int, swap func(i, j int)) {
+	for i := n - 1; i > 0; i-- {
+		swap(i, r.Intn(i+1))
+	}
+}
 func (r *RNG) Chance(p int) bool { return r.Intn(100) < p }
 
 // Ctx collects cases and statistics for one harness run.
@@ -36,19 +43,19 @@ type Ctx struct {
 	Seed                    int64
 	rng                     *RNG
 
-	header   string   // Coq prelude for the cases files
-	cases    []string // Coq terms, one per case
-	descr    []string // human-readable description of each case (for replays)
-	classes  map[string]int
-	dist     map[string]int
-	samples  []string
-	native   []NativeViolation
-	extra    map[string]any
-	mismatch string // name of the Coq mismatches function
-	casetype string
+	header    string   // Coq prelude for the cases files
+	cases     []string // Coq terms, one per case
+	descr     []string // human-readable description of each case (for replays)
+	classes   map[string]int
+	dist      map[string]int
+	samples   []string
+	native    []NativeViolation
+	extra     map[string]any
+	mismatch  string // name of the Coq mismatches function
+	casetype  string
 	caseClass []string
-	witness  map[string]string
-	childOut *bufio.Writer
+	witness   map[string]string
+	childOut  *bufio.Writer
 }
 
 // NativeViolation is a property failure established by the harness itself on
@@ -182,3 +189,12 @@ func coqZ(v int64) string {
 
 func coqN(v uint64) string { return fmt.Sprintf("%d", v) }
 
+// crumb records the case about to be run in-process. A fatal fault of the
+// implementation (which no recover can catch) kills the harness; the
+// orchestrator then reports the recorded case as the failing input.
+func (c *Ctx) crumb(desc string) {
+	if c.Out == "" {
+		return
+	}
+	os.WriteFile(filepath.Join(c.Out, "current_case.txt"), []byte(desc), 0o644)
+}
